@@ -4008,6 +4008,11 @@ int main(int argc, char** argv) {
             std::mutex node_mutex;
             g_shutdown_reason.store(ShutdownReason::None, std::memory_order_release);
             g_run_loop.store(true, std::memory_order_release);
+#ifndef _WIN32
+            // A peer or control client that resets its connection while the daemon still has bytes to
+            // write to it must get a failed send(), not a SIGPIPE that ends the whole daemon.
+            std::signal(SIGPIPE, SIG_IGN);
+#endif
             ephemeralnet::daemon::ControlServer control_server(
                 node,
                 node_mutex,
